@@ -190,6 +190,12 @@ class C13(Prop):
         if q.get("root2") and not (hier and q["root2"]["i"] % 3):
             roots = [root, self.resolve_root(nl, q["root2"])]
             rk = "collection"
+        if hier and any(isinstance(r, sdn.Instance) and r.reference is None
+                        for r in (roots if isinstance(roots, list) else [roots])):
+            # the hierarchical getters derive the netlist from an instance's reference
+            # (HRef.get_all_hrefs_of_instances documents the assumption): not a root they accept
+            res.label("out-of-domain:reference-less-instance-root-for-hierarchical-getter")
+            return
         kw = {}
         if fn_name in SEL2:
             kw["selection"] = [sdn.INSIDE, sdn.OUTSIDE][q["sel"] % 2]
